@@ -131,7 +131,7 @@ META = {
     'level_note': 'Trusted: pyvc engine; contract of simplify (C08) plus the assumed normal form NF1 (a minus-prefixed '
                   'constant result is non-zero); contracts of pymbolic arithmetic overloads; model of the pymbolic '
                   '__eq__ fallback for expression vs python number (False); IntLiteral/FloatLiteral comparison methods '
-                  'are the real source. Known finding: == and != answer False/True for an undecidable residue.',
+                  'are the real source. Known finding: == and != answer False/True for an undecidable residue. Bounded, never counted as proved: symbolic_op on 35 x 35 small integer polynomials x {lt, le, gt, ge} against an integer grid (bounded/C09_native.py), which exercises the real simplify body behind the C08 contract.',
     'trusted_base': ['pyvc engine', 'C08 contract of simplify + NF1', 'pymbolic Expression.__eq__ fallback model',
                      'contracts of pymbolic __sub__/__neg__/__mul__'],
     'assumptions': ['integer operands (val_Z)', 'termination not proved'],
